@@ -293,8 +293,12 @@ func (li *Listener) Close() error {
 	li.doneOnce.Do(func() {
 		close(li.doneChan)
 	})
+	// Close the QUIC listener before the packet connection beneath it.  Closing the
+	// packet connection first makes the QUIC transport's read loop fail and shut the
+	// server down concurrently with ql.Close(), and the two deadlock on each other.
+	qerr := li.ql.Close()
 	perr := li.pc.Close()
-	if qerr := li.ql.Close(); qerr != nil {
+	if qerr != nil {
 		return qerr
 	}
 
